@@ -29,6 +29,12 @@ var findingOrder = []string{
 	"substr-from-for-printed-as-call",
 	"string-literal-escapes",
 	"order-by-null-rand-drops-direction",
+	"positional-arg-printed-as-named",
+	"list-arg-printed-empty",
+	"function-name-printed-raw",
+	"interval-unit-printed-raw",
+	"collate-charset-printed-raw",
+	"convert-type-printed-raw",
 }
 
 func isNullOrRand(e sqlparser.Expr) bool {
@@ -80,6 +86,33 @@ func constructsOf(n interface{}) []string {
 		if x.Type == sqlparser.StrVal && strNeedsOtherEscape(x.Val) {
 			return []string{"string-literal-escapes"}
 		}
+		if x.Type == sqlparser.ValArg {
+			return []string{"positional-arg-printed-as-named"}
+		}
+	case sqlparser.ListArg:
+		if len(x) == 0 {
+			return []string{"list-arg-printed-empty"}
+		}
+	case *sqlparser.FuncExpr:
+		if needsQuoting(x.Name.String()) {
+			return []string{"function-name-printed-raw"}
+		}
+	case *sqlparser.IntervalExpr:
+		if needsQuoting(x.Unit) {
+			return []string{"interval-unit-printed-raw"}
+		}
+	case *sqlparser.CollateExpr:
+		if needsQuoting(x.Charset) || x.Charset == "" {
+			return []string{"collate-charset-printed-raw"}
+		}
+	case *sqlparser.ConvertUsingExpr:
+		if needsQuoting(x.Type) || x.Type == "" {
+			return []string{"collate-charset-printed-raw"}
+		}
+	case *sqlparser.ConvertTypeSimple:
+		if needsQuoting(x.Name) {
+			return []string{"convert-type-printed-raw"}
+		}
 	case *sqlparser.Order:
 		if isNullOrRand(x.Expr) && x.Direction != sqlparser.AscScr {
 			return []string{"order-by-null-rand-drops-direction"}
@@ -116,6 +149,9 @@ func walkNodes(v reflect.Value, visit func(interface{})) {
 		}
 	case reflect.Slice:
 		if v.Type().Elem().Kind() == reflect.Uint8 {
+			if v.Type().Name() != "" && v.CanInterface() {
+				visit(v.Interface()) // named byte-slice nodes such as ListArg
+			}
 			return
 		}
 		for i := 0; i < v.Len(); i++ {
@@ -171,7 +207,11 @@ func repairedFormatter(on map[string]bool) sqlparser.NodeFormatter {
 			}
 		case *sqlparser.CommonTableExpression:
 			if on["cte-name-print-panics"] {
-				buf.Myprintf("%v AS (%v)", x.Name, x.Select)
+				if x.Name.IsEmpty() {
+					buf.Myprintf("'' AS (%v)", x.Select) // WITH '' AS (...) is accepted: a string alias may be empty
+				} else {
+					buf.Myprintf("%v AS (%v)", x.Name, x.Select)
+				}
 				return
 			}
 		case *sqlparser.SubstrExpr:
@@ -206,6 +246,55 @@ func repairedFormatter(on map[string]bool) sqlparser.NodeFormatter {
 				}
 				sb.WriteByte('\'')
 				buf.Myprintf("%s", sb.String())
+				return
+			}
+			if on["positional-arg-printed-as-named"] && x.Type == sqlparser.ValArg {
+				buf.Myprintf("?")
+				return
+			}
+		case *sqlparser.FuncExpr:
+			if on["function-name-printed-raw"] && needsQuoting(x.Name.String()) {
+				distinct := ""
+				if x.Distinct {
+					distinct = "distinct "
+				}
+				if !x.Qualifier.IsEmpty() {
+					buf.Myprintf("%v.", x.Qualifier)
+				}
+				buf.Myprintf("%v(%s%v)", x.Name, distinct, x.Exprs)
+				return
+			}
+		case *sqlparser.IntervalExpr:
+			if on["interval-unit-printed-raw"] && needsQuoting(x.Unit) {
+				buf.Myprintf("interval %v %v", x.Expr, sqlparser.NewColIdent(x.Unit))
+				return
+			}
+		case *sqlparser.CollateExpr:
+			if on["collate-charset-printed-raw"] && x.Charset == "" {
+				buf.Myprintf("%v collate ''", x.Expr)
+				return
+			}
+			if on["collate-charset-printed-raw"] && needsQuoting(x.Charset) {
+				buf.Myprintf("%v collate %v", x.Expr, sqlparser.NewColIdent(x.Charset))
+				return
+			}
+		case *sqlparser.ConvertUsingExpr:
+			if on["collate-charset-printed-raw"] && x.Type == "" {
+				buf.Myprintf("convert(%v using '')", x.Expr)
+				return
+			}
+			if on["collate-charset-printed-raw"] && needsQuoting(x.Type) {
+				buf.Myprintf("convert(%v using %v)", x.Expr, sqlparser.NewColIdent(x.Type))
+				return
+			}
+		case *sqlparser.ConvertTypeSimple:
+			if on["convert-type-printed-raw"] && needsQuoting(x.Name) {
+				buf.Myprintf("%v", sqlparser.NewColIdent(x.Name))
+				return
+			}
+		case sqlparser.ListArg:
+			if on["list-arg-printed-empty"] && len(x) == 0 {
+				buf.Myprintf("::")
 				return
 			}
 		case *sqlparser.Order:
@@ -282,4 +371,12 @@ func attribute(t1 sqlparser.Statement, known func(string) bool) []string {
 		}
 	}
 	return need
+}
+
+// needsQuoting: would ColIdent.Format put the name in backticks? (decided by asking it)
+func needsQuoting(name string) bool {
+	if name == "" {
+		return false
+	}
+	return sqlparser.String(sqlparser.NewColIdent(name)) != name
 }
